@@ -57,7 +57,7 @@ def run(ctx: Ctx) -> None:
 
 def inmem_source(ctx: Ctx, rule="R-C01-SOURCE") -> None:
     f = ctx.func(f"{C.INMEM_BROKER}.reject")
-    g = ctx.cfg(f)
+    g = ctx.icfg(f, exclude=tuple(C.BROKER_OPS))
     adds = [(n, inmem_event(n)) for n in g.calls() if inmem_event(n) and inmem_event(n)[0] == "+"]
     places = sorted({e[1] for _, e in adds})
     reads_source = any("category" in unparse(n.ast) or "taken_from" in unparse(n.ast) or "source" in unparse(n.ast) for n in g.nodes if n.kind in ("test", "call", "store") and n.ast is not None)
@@ -69,6 +69,37 @@ def inmem_source(ctx: Ctx, rule="R-C01-SOURCE") -> None:
     else:
         ctx.check(reads_source and len(places) >= 2, rule, f, "in-memory reject dispatches on the recorded source", f"places {places}",
                   f"in-memory reject inserts into {places} without reading a recorded source", instance="in-memory reject: source")
+        # decision table: recorded category -> place the message returns to
+        cat_names = {x.id for n in g.nodes if n.kind == "test" and n.ast is not None for x in ast.walk(n.ast) if isinstance(x, ast.Name)} | {"category"}
+
+        def env(cat, due):
+            def fn(text, node):
+                if isinstance(node, ast.Compare) and isinstance(node.ops[0], ast.Eq):
+                    sides = [dotted(node.left) or "", dotted(node.comparators[0]) or ""]
+                    lit = [x for x in sides if x.startswith("MessageCategory.")]
+                    if lit and any(x.split(".")[-1] in cat_names or "category" in x for x in sides if x not in lit):
+                        return lit[0].endswith("." + cat)
+                if isinstance(node, ast.Compare) and isinstance(node.ops[0], ast.Is) and C.is_const(node.comparators[0], None) and isinstance(node.left, ast.Name) \
+                        and any("wait_until" in unparse(x) for x in C.expand_locals(f, node.left)):
+                    # `delay is None`: the due time of a message taken from the delayed category
+                    return (not due) if cat == "DELAYED" else True
+                if isinstance(node, ast.Compare) and isinstance(node.ops[0], ast.Is) and C.is_const(node.comparators[0], None) and isinstance(node.left, ast.Name):
+                    return False  # the held message was found
+                return None
+            return {"*cat": fn}
+
+        for cat, due, want in (("NORMAL", False, "waiting"), ("DELAYED", True, "delayed"), ("DEAD", False, "dead")):
+            r = flow.reach_under(g, env(cat, due), flow.NORMAL_KINDS)
+            got = sorted({e[1] for n, e in adds if n.id in r})
+            ctx.check(got == [want], rule, f, f"in-memory reject of a message taken as {cat}", f"-> {want}",
+                      f"in-memory reject returns a message that was taken through the {cat} category to {got or 'no place'} instead of '{want}': it changes category by being looked at "
+                      "(a rejected delayed message becomes deliverable early, a rejected dead letter comes back to life)", instance=f"in-memory reject: source[{cat}]")
+        # the record read is the one consume writes (holder of the message), and it is consumed with the message
+        cons = ctx.func(f"{C.INMEM_CONS}.consume")
+        rec = [n for n in ast.walk(cons.node) if isinstance(n, ast.Assign) and isinstance(n.targets[0], ast.Subscript) and "holders" in unparse(n.targets[0].value) and dotted(n.value) == "self"]
+        reads = [c for c in ast.walk(f.node) if isinstance(c, ast.Call) and isinstance(c.func, ast.Attribute) and c.func.attr in ("pop", "get") and "holders" in unparse(c.func.value)]
+        ctx.check(len(rec) == 1 and len(reads) == 1, rule, f, "in-memory reject reads the holder record consume writes", "holders[msg] = self / holders.pop(msg)",
+                  "in-memory reject does not read the holder record that consume() writes for every handed-out message", instance="in-memory reject: record agreement")
 
 
 def redis_orphan(ctx: Ctx, rule="R-C01-TRANSFER") -> None:
